@@ -7,7 +7,9 @@ func (r Ring) DivFloorByLastModulusNTT(p0, buff, p1 Poly) {
 
 	level := r.level
 
-	r.SubRings[level].INTTLazy(p0.Coeffs[level], buff.Coeffs[0])
+	// The floored division requires the residue modulo the last modulus to be fully
+	// reduced (the lazy inverse NTT returns values in [0, 2q-1], e.g. q for 0).
+	r.SubRings[level].INTT(p0.Coeffs[level], buff.Coeffs[0])
 
 	for i, s := range r.SubRings[:level] {
 		s.NTTLazy(buff.Coeffs[0], buff.Coeffs[1])
